@@ -59,9 +59,8 @@ const ri_ext mh_exts[] = {
 const int mh_n_exts = sizeof (mh_exts) / sizeof (mh_exts[0]);
 
 /* ------------------------------------------------------------------ tracking allocator: everything can be dropped after an error */
-typedef struct tblk { struct tblk *prev, *next; size_t size; long double align[0]; } tblk;
-static tblk thead = {&thead, &thead, 0};
-static void *t_malloc (size_t n, void *ud) { tblk *b = malloc (sizeof (tblk) + n); if (!b) return NULL; b->size = n; b->next = thead.next; b->prev = &thead; thead.next->prev = b; thead.next = b; return b + 1; }
+typedef mh_tblk tblk;
+static void *t_malloc (size_t n, void *ud) { mh_ctx *mc = ud; tblk *b = malloc (sizeof (tblk) + n); if (!b) return NULL; b->size = n; b->next = mc->head.next; b->prev = &mc->head; mc->head.next->prev = b; mc->head.next = b; return b + 1; }
 static void *t_calloc (size_t a, size_t b, void *ud) { void *p = t_malloc (a * b, ud); if (p) memset (p, 0, a * b); return p; }
 static void t_free (void *p, void *ud) { if (!p) return; tblk *b = (tblk *) p - 1; b->prev->next = b->next; b->next->prev = b->prev; free (b); }
 static void *t_realloc (void *p, size_t o, size_t n, void *ud) {
@@ -70,32 +69,31 @@ static void *t_realloc (void *p, size_t o, size_t n, void *ud) {
   nb = realloc (b, sizeof (tblk) + n); if (!nb) return NULL;
   nb->size = n; pr->next = nb; nx->prev = nb; return nb + 1;
 }
-static void t_free_all (void) { while (thead.next != &thead) { tblk *b = thead.next; thead.next = b->next; b->next->prev = &thead; free (b); } }
-static struct MIR_alloc talloc = {t_malloc, t_calloc, t_realloc, t_free, NULL};
+static void t_free_all (mh_ctx *mc) { while (mc->head.next != &mc->head) { tblk *b = mc->head.next; mc->head.next = b->next; b->next->prev = &mc->head; free (b); } }
 
 /* ------------------------------------------------------------------ pooled code allocator
    MIR lets the user supply the code allocator (CUSTOM-ALLOCATORS.md); the harness maps pages RWX once and
    recycles them, which removes ~90 mprotect/mmap system calls per context.  C17 uses the checking allocator instead. */
 #include <sys/mman.h>
 #define POOL_MAX 64
-static struct { void *p; size_t len; int used; } pool[POOL_MAX]; static int n_pool;
+static struct { void *p; size_t len; void *used; } pool[POOL_MAX]; static int n_pool;
 static void *p_map (size_t len, void *ud) {
-  for (int i = 0; i < n_pool; i++) if (!pool[i].used && pool[i].len == len) { pool[i].used = 1; memset (pool[i].p, 0xCC, len); /* stale code must trap */ return pool[i].p; }
+  for (int i = 0; i < n_pool; i++) if (!pool[i].used && pool[i].len == len) { pool[i].used = ud; memset (pool[i].p, 0xCC, len); /* stale code must trap */ return pool[i].p; }
   void *p = mmap (NULL, len, PROT_READ | PROT_WRITE | PROT_EXEC, MAP_PRIVATE | MAP_ANONYMOUS, -1, 0);
   if (p == (void *) -1) return NULL;
-  if (n_pool < POOL_MAX) { pool[n_pool].p = p; pool[n_pool].len = len; pool[n_pool].used = 1; n_pool++; }
+  if (n_pool < POOL_MAX) { pool[n_pool].p = p; pool[n_pool].len = len; pool[n_pool].used = ud; n_pool++; }
   return p;
 }
 static int p_unmap (void *p, size_t len, void *ud) {
-  for (int i = 0; i < n_pool; i++) if (pool[i].p == p) { pool[i].used = 0; return 0; }
+  for (int i = 0; i < n_pool; i++) if (pool[i].p == p) { pool[i].used = NULL; return 0; }
   return munmap (p, len);
 }
 static int p_protect (void *p, size_t len, MIR_mem_protect_t prot, void *ud) { return 0; }
-static struct MIR_code_alloc pcalloc = {p_map, p_unmap, p_protect, NULL};
-static void pool_release_all (void) { for (int i = 0; i < n_pool; i++) pool[i].used = 0; }
+static void pool_release_all (void *owner) { for (int i = 0; i < n_pool; i++) if (pool[i].used == owner) pool[i].used = NULL; }
 
 /* ------------------------------------------------------------------ contexts */
 jmp_buf mh_err_jb; mh_ctx *mh_cur; static int trap_armed;
+void mh_arm (int on) { trap_armed = on; }
 static void MIR_NO_RETURN err_func (MIR_error_type_t t, const char *fmt, ...) {
   va_list ap; va_start (ap, fmt);
   if (mh_cur) { mh_cur->err = 1; mh_cur->err_type = t; vsnprintf (mh_cur->errmsg, sizeof mh_cur->errmsg, fmt, ap); }
@@ -107,7 +105,10 @@ static void MIR_NO_RETURN err_func (MIR_error_type_t t, const char *fmt, ...) {
 
 int mh_open (mh_ctx *mc) {
   memset (mc, 0, sizeof *mc);
-  mc->ctx = MIR_init2 (&talloc, getenv ("VP_DEFAULT_CODE_ALLOC") ? NULL : &pcalloc);
+  mc->head.next = mc->head.prev = &mc->head;
+  mc->alloc = (struct MIR_alloc){t_malloc, t_calloc, t_realloc, t_free, mc};
+  mc->calloc_ = (struct MIR_code_alloc){p_map, p_unmap, p_protect, mc};
+  mc->ctx = MIR_init2 (&mc->alloc, getenv ("VP_DEFAULT_CODE_ALLOC") ? NULL : &mc->calloc_);
   MIR_set_error_func (mc->ctx, err_func);
   return 0;
 }
@@ -141,7 +142,7 @@ void mh_close (mh_ctx *mc) {
     trap_armed = 0;
   }
   /* after an error the context is abandoned; its heap blocks are dropped wholesale (code pages, if any, leak) */
-  t_free_all (); pool_release_all ();
+  t_free_all (mc); pool_release_all (mc);
   mc->ctx = NULL; mh_cur = NULL;
 }
 
